@@ -27,6 +27,9 @@ class Story:
             self.sim.real_txids = True
         self.fs.sched.window = shape.get('window')
         self.fs.sched.hold_mode = shape.get('hold', False)
+        if shape.get('filter'):
+            # only gates with this label prefix are candidates for postponement (timers and events are not affected)
+            self.fs.sched.filter = lambda g, p=shape['filter']: g.label.startswith(p)
         self.main = []               # the daemon's current chain (RBlocks)
         self.mp = {}                 # name -> prepared RTx
         self.requests = []           # outcomes of client requests
